@@ -453,10 +453,13 @@ def run_expm(c, u):
             np.array([[0.3, 0.3, 0.0], [0.0, 0.3, 0.3], [0.0, 0.0, 0.3]])]
     old = mp.mp.dps
     mp.mp.dps = 40
+    # the same base points scaled to small norms (an implementation may pick its approximation order from ||A_0||, which
+    # guarantees the VALUE only), with degrees up to 8
+    small = [(m * sc, (6, 8)) for m in menu[:3] for sc in (0.02, 1e-3, 1e-6)] + [(np.zeros((2, 2)), (4, 8))]
     try:
-        for A0 in menu:
+        for A0, Ds in [(m, DMENU[tier]) for m in menu] + small:
             N = A0.shape[0]
-            for D in DMENU[tier]:
+            for D in Ds:
                 P = 2
                 A = np.zeros((D, P, N, N))
                 A[0, 0] = A0
